@@ -84,7 +84,7 @@ def cases(tier, seed):
         out.append({"key": f"restore/{H}x{W}/psf=3x3/bigprime", "grp": "restore", "H": H, "W": W, "kH": 3, "kW": 3})
         out.append({"key": f"restore/{H}x{W}/psf=2x3/bigprime", "grp": "restore", "H": H, "W": W, "kH": 2, "kW": 3})
     for (H, W) in ((3, 4), (4, 3), (5, 5)):
-        for lay in ("F", "T", "view"):
+        for lay in ("F", "T", "view", "ro"):
             out.append({"key": f"restore/{H}x{W}/psf=2x3/layout={lay}", "grp": "restore", "H": H, "W": W, "kH": 2, "kW": 3 if W >= 3 else W, "lay": lay})
     for r in range(3):
         out.append({"key": f"psfgen/gauss/r={r}", "grp": "gauss", "r": r})
@@ -190,6 +190,11 @@ def run_case(case, seed):
             big = np.zeros((2 * H + 1, 2 * W + 1, 8))
             big[1::2, 1::2, ::2] = B
             B = big[1::2, 1::2, ::2]
+        elif lay == "ro":
+            B = B.copy()
+            B.setflags(write=False)
+            psf = psf.copy()
+            psf.setflags(write=False)
         if lay != "C":
             ok, Yb = call(q.apply_blur_fft, B, psf)
             evals += 1
